@@ -541,6 +541,12 @@ class C10Part(WirePart):
                 bad.append(("%s/ser-%s" % (self.fam, ww[2]), "%s: sanitizer abort / exception inside serialize/deserialize/getters of a VALID sketch (%s)" % (ww[1], ww[2]), i))
             elif w[0] == "ser" and not o.startswith("IMG "):
                 bad.append(("%s/serialize-throws" % self.fam, o[:120], i))
+            elif w[0] == "ser":
+                # one object, two writers (+ the header variants): the model reads the byte-vector image; a stream image that differs
+                # from it cannot be the documented layout as well (the round-trip checks of the same line belong to C09)
+                for c in parse_img(o)["checks"].replace("FAIL:", "").split(","):
+                    if c == "stream-ne-bytes" or c.startswith("header"):
+                        bad.append(("%s/writers-disagree:%s" % (self.fam, c), "%s: %s (byte-vector image %s)" % (parse_img(o)["kind"], c, parse_img(o)["hex"][:100]), i))
         return bad
 
     def nontrivial_key(self, hist, impl_out):
